@@ -14,6 +14,7 @@ func init() {
 	register(&Property{
 		ID: "C17",
 		Explanation: "Decides the structural conditions of 'probing never loses, reorders or fabricates bytes': R17.1 HasBody answers true only under ContentLength > 0, answers false without probing only when a Content-Length header is present, and otherwise installs ONE buffered wrapper as r.Body and asks that very wrapper; the wrapper's bufio reader and its close target are built over the same original stream; Read delegates only to the buffered reader (never to the original stream behind its back) and HasContent only uses non-consuming calls (Buffered/Peek). " +
+			"Round 12: R17.2 an open wrapper's Close, once it has done anything, leaves only after orig.Close; underlying = nil is stored by Close alone. " +
 			"R17.2 close-once typestate: the original stream is closed only in state 'open' (underlying != nil) and the state is set to closed on every path on which the original Close is called, before any return; reads test the state before delegating. " +
 			"R17.3 nil-receiver consistency: HasBody can install a nil *peekingReader, so every method dereferences its receiver only under p != nil. " +
 			"R17.1 also: HasContent touches no field of the reader but the buffered stream (no remembered answer) and newPeekingReader always returns a fresh wrapper. " +
